@@ -290,7 +290,7 @@ class NetrefClass(object):
     @property
     def owner(self):
         """accessor to the class object for the instance owner being proxied"""
-        return self._class_obj.__class__
+        return type(self._class_obj)
 
     def __get__(self, netref_instance, netref_owner):
         """the value returned when accessing the netref class is dictated by whether or not an instance is proxied"""
@@ -325,7 +325,9 @@ def class_factory(id_pack, methods):
                 _class_name = name_pack[cursor + 1:]
                 # the module's own namespace only: a module-level __getattr__ (PEP 562) could import, and the name is the peer's
                 _class = getattr(_module, '__dict__', {}).get(_class_name)
-                if _class is not None and hasattr(_class, '__class__'):
+                # the name is the peer's and the object it is bound to was never lent: accept it only if it is a class, decided
+                # on type(_class) alone (no attribute of the object is read, so no code of the object runs)
+                if _class is not None and issubclass(type(_class), type):
                     class_descriptor = NetrefClass(_class)
                 break
     ns['__class__'] = class_descriptor
